@@ -4,7 +4,7 @@ import engine_plugin as ep
 
 ID = "C02"
 LEAN_MODULES = ['HgVerif.Props.C02', 'HgVerif.Model.Engine', 'HgVerif.Model.Extracted']
-THEOREMS = ['HgVerif.Sched.scan_next_lower', 'HgVerif.Sched.scan_next_is_slot', 'HgVerif.Sched.due_node_evaluated', 'HgVerif.Sched.cycle_next_gt', 'HgVerif.Sched.sim_times_strict', 'HgVerif.Sched.sim_times_window', 'HgVerif.Tie.tie_slotConsumed', 'HgVerif.Tie.tie_slotEarlier', 'HgVerif.Tie.tie_cacheFuture', 'HgVerif.Tie.tie_cacheEarlier', 'HgVerif.Tie.tie_startFoldFrom', 'HgVerif.Tie.tie_scanRunsWhen', 'HgVerif.Tie.tie_scanFoldFuture']
+THEOREMS = ['HgVerif.Sched.scan_next_lower', 'HgVerif.Sched.scan_next_is_slot', 'HgVerif.Sched.due_node_evaluated', 'HgVerif.Sched.cycle_next_gt', 'HgVerif.Sched.sim_times_strict', 'HgVerif.Sched.sim_times_window', 'HgVerif.Sched.armed_wakeup_honoured', 'HgVerif.Tie.tie_slotConsumed', 'HgVerif.Tie.tie_slotEarlier', 'HgVerif.Tie.tie_cacheFuture', 'HgVerif.Tie.tie_cacheEarlier', 'HgVerif.Tie.tie_startFoldFrom', 'HgVerif.Tie.tie_scanRunsWhen', 'HgVerif.Tie.tie_scanFoldFuture']
 CXX_TARGETS = ['hgv_engine']
 USES_EXTRACT = True
 RULE = 'generated graphs with script nodes issuing random scheduler requests (relative/absolute/tagged, cancels, start-phase requests, requests for the current time, equal times from different nodes, consecutive smallest steps) mixed with input-driven evaluation and self-scheduling nodes inside nested graphs; random start/end (requests at/after end); non-trivial = at least 2 cycles with user code; distinct by program text'
